@@ -59,6 +59,7 @@ class Ctx:
     def __init__(self, query_timeout_ms=120000, max_paths=400000, known=None, params=None, max_conc=4096):
         self.solver = z3.Solver()
         self.solver.set("timeout", query_timeout_ms)
+        self.query_timeout_ms = query_timeout_ms
         self.root = {}
         self.pos = None
         self.pc = []
@@ -276,8 +277,21 @@ class Ctx:
             return (r != 0).e if _real_isinstance(r != 0, SymBool) else bool(r != 0)
         return bool(r)
 
-    def holds(self, label, cond, detail=None):
-        """assert cond on the current path for all inputs; returns True if it was proved"""
+    def holds(self, label, cond, detail=None, soft_timeout_ms=None):
+        """assert cond on the current path for all inputs; returns True if it was proved.
+        soft_timeout_ms: refutation-only sub-claim (declared in advance): a solver 'unknown' within that budget is recorded
+        as undecided (never as proved) instead of stopping the case."""
+        if soft_timeout_ms is not None:
+            self.solver.set("timeout", soft_timeout_ms)
+            try:
+                return self.holds(label, cond, detail)
+            except EngineLimit as e:
+                st = self._label(label)
+                st["undecided"] = st.get("undecided", 0) + 1
+                self.note("undecided (refutation-only sub-claim): %s: %s" % (label, e))
+                return None
+            finally:
+                self.solver.set("timeout", self.query_timeout_ms)
         st = self._label(label)
         st["reached"] += 1
         self.stats.obligations += 1
@@ -369,9 +383,12 @@ class Ctx:
                 raise
             if not aborted and not self._path_failed and _real_len(self.samples) < 3 \
                     and self.stats.paths % self.sample_every == 0 and self.inputs:
-                if self.check():
-                    self.samples.append(self._model_inputs(self.solver.model()))
-                    self.sample_every *= 4
+                try:
+                    if self.check():
+                        self.samples.append(self._model_inputs(self.solver.model()))
+                        self.sample_every *= 4
+                except EngineLimit:
+                    pass    # no sample model for this path (solver gave up); samples are optional
             self.solver.pop()
             self.stats.paths += 1
             done_all = True
@@ -437,7 +454,7 @@ class ConcreteCtx:
         if not cond:
             raise PathAbort()
 
-    def holds(self, label, cond, detail=None):
+    def holds(self, label, cond, detail=None, soft_timeout_ms=None):
         if cond:
             self.passed.append(label)
             return True
